@@ -385,16 +385,32 @@ pub fn check_edit(c: &EditCase, st: &mut Stats, pid: &str) -> Vec<Viol> {
         let before = live.text();
         let model_before = model.clone();
         let op = &c.ops[n - 1];
+        // handles taken in the MIDDLE of the history (after every operation but the last one)
+        let mid: Vec<Paragraph> = (0..model.len()).filter_map(|i| live.para(i)).collect();
+        let mut mid_map: Vec<Option<usize>> = if mid.len() == model.len() { (0..mid.len()).map(Some).collect() } else { vec![] };
         let removed_text: Option<String> = match op {
             Op::RemovePara(i) => live.para(*i).map(|p| p.to_string()),
             _ => None,
         };
         let returned = live_apply(&mut live, if c.early { Some((&early, &early_map)) } else { None }, op)?;
         remap(&mut early_map, op, model.len());
+        remap(&mut mid_map, op, model.len());
         model_apply(&mut model, op);
         let after = live.text();
         // handles taken before the first operation see every later edit of their paragraph, whichever handle made it
         let mut out = check_state(&live, &model, &early, &early_map);
+        if n >= 2 {
+            // (only the handle clause: the rest of check_state was just evaluated)
+            let text = live.text();
+            for (i, h) in mid.iter().enumerate() {
+                if let Some(m) = mid_map.get(i).copied().flatten().and_then(|j| model.get(j)) {
+                    let items: Vec<(String, String)> = h.items().collect();
+                    if &items != m {
+                        out.push(viol("early-handle-sees-edit", format!("text {:?}: the handle taken to paragraph {} before the LAST operation reports {:?}, model {:?}", text, i, items, m)));
+                    }
+                }
+            }
+        }
         if let Some(ed) = &early_doc {
             if ed.to_string() != after {
                 out.push(viol("early-handle-sees-edit", format!("{:?}: the document handle taken before the first operation prints {:?}, the document {:?}", op, ed.to_string(), after)));
